@@ -18,6 +18,8 @@ LEVEL_NOTE = ("Not decided: the outcomes over the full declaration × supply pro
 
 ITEM = r"\(Iterator::next\(&IntoIterator::into_iter\(&\*arg:self\.globals\)\) as Some\)\.0"
 
+WITNESSES = ["W3"]
+
 
 def run(prog, rep):
     rep.rule("C16.G", "check_globals: decision table on `globals.get(name)` / default / quantifier")
